@@ -243,3 +243,54 @@ Proof.
     + apply a_single_equiv.
     + reflexivity.
 Qed.
+
+(* ---- bundled for Props/C13.v ---- *)
+Theorem amount_ops_respect_equiv a a' b b' (f f' : formats) k p c v :
+  map_equiv a a' -> map_equiv b b' -> map_equiv f f' ->
+  map_equiv (a_add a b) (a_add a' b') /\
+  map_equiv (a_sub a b) (a_sub a' b') /\
+  map_equiv (a_neg a) (a_neg a') /\
+  map_equiv (a_scale a k) (a_scale a' k) /\
+  map_equiv (a_div a k) (a_div a' k) /\
+  map_equiv (a_round f a) (a_round f' a') /\
+  map_equiv (a_remove_zeros a) (a_remove_zeros a') /\
+  map_equiv (a_add_pa a p) (a_add_pa a' p) /\
+  map_equiv (assert_balance a p) (assert_balance a' p) /\
+  map_equiv (fst (a_set_partial a c v)) (fst (a_set_partial a' c v)) /\
+  snd (a_set_partial a c v) = snd (a_set_partial a' c v) /\
+  a_get a c = a_get a' c /\
+  a_is_zero a = a_is_zero a' /\
+  a_is_absolute_zero a = a_is_absolute_zero a' /\
+  amount_to_pa a = amount_to_pa a' /\
+  amount_to_single a = amount_to_single a'.
+Proof.
+  intros Ha Hb Hf.
+  split; [apply a_add_equiv; assumption|]. split; [apply a_sub_equiv; assumption|].
+  split; [apply a_neg_equiv, Ha|]. split; [apply a_scale_equiv, Ha|]. split; [apply a_div_equiv, Ha|].
+  split; [apply a_round_equiv; assumption|]. split; [apply a_remove_zeros_equiv, Ha|].
+  split; [apply a_add_pa_equiv, Ha|]. split; [apply assert_balance_equiv, Ha|].
+  split; [apply a_set_partial_equiv, Ha|]. split; [apply a_set_partial_equiv, Ha|].
+  split; [apply a_get_equiv, Ha|]. split; [apply a_is_zero_equiv, Ha|].
+  split; [apply a_is_absolute_zero_equiv, Ha|]. split; [apply amount_to_pa_equiv, Ha|apply amount_to_single_equiv, Ha].
+Qed.
+
+Theorem eval_order_independent :
+  (forall e, res_equiv val_equiv (eval_e e) (eval_e e)) /\
+  (forall x x' y y', val_equiv x x' -> val_equiv y y' ->
+     res_equiv val_equiv (ev_add x y) (ev_add x' y') /\
+     res_equiv val_equiv (ev_sub x y) (ev_sub x' y') /\
+     res_equiv val_equiv (ev_mul x y) (ev_mul x' y') /\
+     res_equiv val_equiv (ev_div x y) (ev_div x' y')) /\
+  (forall x x', val_equiv x x' ->
+     val_equiv (ev_negate x) (ev_negate x') /\
+     ev_is_zero x = ev_is_zero x' /\
+     res_equiv map_equiv (ev_to_amount x) (ev_to_amount x') /\
+     ev_to_pa x = ev_to_pa x' /\
+     ev_to_single x = ev_to_single x').
+Proof.
+  split; [exact eval_e_wf|]. split.
+  - intros x x' y y' H1 H2. split; [apply ev_add_equiv; assumption|]. split; [apply ev_sub_equiv; assumption|].
+    split; [apply ev_mul_equiv; assumption|apply ev_div_equiv; assumption].
+  - intros x x' H. split; [apply ev_negate_equiv, H|]. split; [apply ev_is_zero_equiv, H|].
+    split; [apply ev_to_amount_equiv, H|]. split; [apply ev_to_pa_equiv, H|apply ev_to_single_equiv, H].
+Qed.
